@@ -1031,9 +1031,18 @@ impl Stdfs {
         let mut path = PathBuf::new();
         for component in abs.components() {
             path.push(component);
-            if !path.exists() {
-                fs::create_dir(&path)?;
-                fs::set_permissions(&path, fs::Permissions::from_mode(mode))?;
+            match fs::metadata(&path) {
+                // the directory itself must be a real directory, not a link to one
+                Ok(meta) if meta.is_dir() && !(path == abs && Stdfs::is_symlink(&path)) => {},
+                Ok(_) => return Err(PathError::is_not_dir(&path).into()),
+                Err(_) => {
+                    // a dangling link is in the way
+                    if fs::symlink_metadata(&path).is_ok() {
+                        return Err(PathError::is_not_dir(&path).into());
+                    }
+                    fs::create_dir(&path)?;
+                    fs::set_permissions(&path, fs::Permissions::from_mode(mode))?;
+                },
             }
         }
         Ok(abs)
